@@ -21,6 +21,7 @@ static void set_src(const Args &a) {
     tape_set_src(e);
 }
 // scripted storage
+static thread_local size_t g_erase_size = 0;
 static thread_local bytes_t g_store; static thread_local int g_rres = 32, g_wres = 32; static thread_local long g_reads = 0, g_writes = 0;
 static thread_local bytes_t g_written; static thread_local int g_last_erase = -1; static thread_local size_t g_last_off = 99;
 static int st_read(const ascon_storage_t *, size_t off, unsigned char *data, size_t size) {
@@ -35,8 +36,9 @@ static int st_write(const ascon_storage_t *, size_t off, const unsigned char *da
     g_written.assign(data, data + size);
     if (g_wres < 0) return -1;
     size_t n = (size_t)g_wres < size ? (size_t)g_wres : size;
-    if (g_store.size() < off + n) g_store.resize(off + n);
-    for (size_t i = 0; i < n; ++i) g_store[off + i] = data[i];
+    if (g_store.size() < off + n) g_store.resize(off + n, 0xff);
+    // a model of the memory: EEPROM (erase_size 0) takes any value; flash keeps old AND new unless the call erases first
+    for (size_t i = 0; i < n; ++i) g_store[off + i] = (g_erase_size == 0 || erase) ? data[i] : (unsigned char)(g_store[off + i] & data[i]);
     return (int)n;
 }
 static ascon_random_state_t *pst(const Args &a) { return (ascon_random_state_t *)obj_get((int)a.num("obj"), "prng").mem; }
@@ -74,7 +76,7 @@ static void r_poke(const Args &a) {      // position the byte counter (documente
 static void fill_storage(ascon_storage_t &s, const Args &a) {
     memset(&s, 0, sizeof s);
     s.page_size = (size_t)a.num("page", 1); s.erase_size = (size_t)a.num("erase_size", 0); s.address = 0; s.size = (size_t)a.num("size", 64);
-    s.partial_writes = 0; s.read = st_read; s.write = st_write;
+    s.partial_writes = (int)a.num("partial", 0); s.read = st_read; s.write = st_write; g_erase_size = s.erase_size;
     g_rres = (int)a.num("rres", 32); g_wres = (int)a.num("wres", 32);
     if (a.has("content")) g_store = a.hex("content");
     g_reads = g_writes = 0; g_written.clear(); g_last_erase = -1; g_last_off = 99;
@@ -84,7 +86,9 @@ static void r_save(const Args &a) {
     ascon_storage_t s; fill_storage(s, a);
     int ret = ascon_random_save_seed(st, &s);
     Ev ev("prng.save"); ev.n("obj", a.num("obj")).n("size", (long long)s.size).n("wres", g_wres).n("ret", ret).b("written", g_written)
-        .n("writes", g_writes).n("reads", g_reads).n("woff", (long long)g_last_off).raw("draws", src_log_json()); dump_prng(ev, st); ev.emit();
+        .n("writes", g_writes).n("reads", g_reads).n("woff", (long long)g_last_off).raw("draws", src_log_json());
+    // what the memory holds afterwards (a restart reads this back)
+    ev.b("stored", bytes_t(g_store.begin(), g_store.begin() + (g_store.size() < 32 ? g_store.size() : 32))); dump_prng(ev, st); ev.emit();
 }
 static void r_load(const Args &a) {
     ascon_random_state_t *st = pst(a); if (a.has("src")) set_src(a);
@@ -93,7 +97,8 @@ static void r_load(const Args &a) {
     int ret = ascon_random_load_seed(st, &s);
     bytes_t rb; for (size_t i = 0; i < 32 && (int)i < g_rres; ++i) rb.push_back(i < content.size() ? content[i] : 0xEE);
     Ev ev("prng.load"); ev.n("obj", a.num("obj")).n("size", (long long)s.size).n("rres", g_rres).n("wres", g_wres).n("ret", ret).b("rbytes", rb)
-        .b("written", g_written).n("writes", g_writes).n("reads", g_reads).raw("draws", src_log_json()); dump_prng(ev, st); ev.emit();
+        .b("written", g_written).n("writes", g_writes).n("reads", g_reads).raw("draws", src_log_json());
+    ev.b("stored", bytes_t(g_store.begin(), g_store.begin() + (g_store.size() < 32 ? g_store.size() : 32))); dump_prng(ev, st); ev.emit();
 }
 static void r_null(const Args &a) {
     // the documented NULL-state conveniences
